@@ -15,3 +15,13 @@ func ptrTo(t types.Type) types.Type { return types.NewPointer(t) }
 func sortFuncs(fs []*ssa.Function) {
 	sort.Slice(fs, func(i, j int) bool { return fs[i].String() < fs[j].String() })
 }
+
+// sortedBlocks returns the blocks of a set in index order (deterministic obligation keys).
+func sortedBlocks(m map[*ssa.BasicBlock]bool) []*ssa.BasicBlock {
+	out := make([]*ssa.BasicBlock, 0, len(m))
+	for b := range m {
+		out = append(out, b)
+	}
+	sort.Slice(out, func(i, j int) bool { return out[i].Index < out[j].Index })
+	return out
+}
